@@ -121,7 +121,7 @@ def r123_seed_wiring(ctx, c, ci=None, G=None):
     for m, fn in ci.methods.items():
         for n in walk_shallow(fn):
             if is_self_attr(n, origf.attr) and isinstance(n.ctx, ast.Store):
-                ok = m == '__init__'
+                ok = m == '__init__' or _restores_own_field(prog, c, m, n, origf.attr)     # unpickling / copying re-creates the object: as the constructor does
                 if not ok:
                     # a store that no constructed object can reach (it sits under "no original seed yet") writes nothing outside construction
                     try:
@@ -162,6 +162,7 @@ def check_stream(ctx, c):
     r121_private_generator(ctx, c, ci, G)
     isG = lambda n: is_self_attr(n, G)
     _after_r121(ctx, c, ci, G, isG)
+    r1216_state_protocol(ctx, c)
 
 
 def r121_private_generator(ctx, c, ci=None, G=None):
@@ -176,7 +177,7 @@ def r121_private_generator(ctx, c, ci=None, G=None):
     for m, fn in ci.methods.items():
         for n in walk_shallow(fn):
             if isG(n) and isinstance(n.ctx, (ast.Store, ast.Del)):
-                ok = m == '__init__'
+                ok = m == '__init__' or _restores_own_field(prog, c, m, n, G)
                 ctx.ob('R12.1', f'{c}.{m}:write-{G}', ok, sample=f'{c}.{m} assigns {G}')
                 if not ok:
                     ctx.finding('R12.1', f'{c}.{m}:rebinds-{G}', ci, n, f'the private generator {G} is re-bound outside __init__ (streams could come to share a generator)',
@@ -184,6 +185,8 @@ def r121_private_generator(ctx, c, ci=None, G=None):
             if isG(n) and isinstance(n.ctx, ast.Load):
                 ctx.examined()
                 esc = escape_context(fn, n)
+                if esc and m == '__getstate__' and esc == 'stored in a container' and G in (state_protocol(prog, c)[0] or {}).values():
+                    esc = None              # the state handed to pickle / copy, which rebuild the object from it (a shallow copy shares it as before)
                 if esc:
                     ctx.ob('R12.1', f'{c}.{m}:escape', False)
                     ctx.finding('R12.1', f'{c}.{m}:escape-{G}', ci, n, f'the private generator {G} escapes ({esc}): its state can be shared or altered from outside the stream',
@@ -403,6 +406,66 @@ def _after_r121(ctx, c, ci, G, isG):
     except _U14 as e15:
         ctx.note(f"R12.15: {c}.restore_state not interpreted on the contract ({e15}); no verdict from this rule")
         ctx.ob('R12.15', f'{c}.restore_state:contract', True, sample=f'not interpreted: {e15}')
+
+
+def state_protocol(prog, c):
+    """({key: field saved under it}, {field: key it is restored from, node}) for a class with `__getstate__` returning a dict display
+    `{'k': self.f, ..}` and `__setstate__(self, state)` assigning `self.g = state['k']` / `state.get('k')`; (None, None) without the pair"""
+    ci = prog.classes.get(c)
+    gs, ss = ci.methods.get('__getstate__'), ci.methods.get('__setstate__')
+    if gs is None or ss is None or len(ss.args.args) != 2:
+        return None, None
+    saved = {}
+    for r in ast.walk(gs):
+        d = r.value if isinstance(r, ast.Return) else (r.value if isinstance(r, ast.Assign) else None)
+        if isinstance(d, ast.Dict):
+            for k, v in zip(d.keys, d.values):
+                if isinstance(k, ast.Constant) and isinstance(k.value, str) and is_self_attr(v):
+                    saved[k.value] = v.attr
+    sp = ss.args.args[1].arg
+    restored = {}
+    for a in ast.walk(ss):
+        tg_ = a.targets[0] if isinstance(a, ast.Assign) and len(a.targets) == 1 else (a.target if isinstance(a, ast.AnnAssign) and a.value is not None else None)
+        if tg_ is not None and is_self_attr(tg_):
+            v = a.value
+            key = None
+            if isinstance(v, ast.Subscript) and isinstance(v.value, ast.Name) and v.value.id == sp and isinstance(v.slice, ast.Constant):
+                key = v.slice.value
+            elif isinstance(v, ast.Call) and isinstance(v.func, ast.Attribute) and v.func.attr == 'get' and isinstance(v.func.value, ast.Name) \
+                    and v.func.value.id == sp and v.args and isinstance(v.args[0], ast.Constant):
+                key = v.args[0].value
+            if isinstance(key, str):
+                restored.setdefault(tg_.attr, []).append((key, a))
+    return saved, restored
+
+
+def r1216_state_protocol(ctx, c):
+    """Writer and reader of the pickled state agree: every field is restored from the key it was saved under."""
+    prog = ctx.prog
+    saved, restored = state_protocol(prog, c)
+    if saved is None or not saved or not restored:
+        return
+    ci = prog.cls(c)
+    ctx.rule('R12.16', f'{c}.__setstate__ restores every field from the key {c}.__getstate__ saved it under (writer / reader agreement of the pickled state)')
+    for f, uses in sorted(restored.items()):
+        for key, node in uses:
+            ok = key not in saved or saved[key] == f
+            ctx.ob('R12.16', f'{c}.__setstate__:{f}<-{key}', ok, sample=f'{c}.__setstate__: self.{f} <- state[{key!r}] (saved from self.{saved.get(key)})')
+            if not ok:
+                ctx.finding('R12.16', f'{c}.__setstate__:{f}-from-{key}', ci, node,
+                            f'{c}.__setstate__ restores `self.{f}` from state[{key!r}], which __getstate__ filled from `self.{saved[key]}`: a stream rebuilt by pickle / '
+                            f'copy carries the wrong {f} (reset() and seed() of the copy answer for another seed)', where=f'{c}.__setstate__')
+
+
+def _restores_own_field(prog, c, m, node_store, field):
+    """the store is `self.<field> = state[k]` in __setstate__ with k the key __getstate__ saved <field> under"""
+    if m != '__setstate__':
+        return False
+    saved, restored = state_protocol(prog, c)
+    if not saved:
+        return False
+    return any(saved.get(key) == field and any(t is node_store for t in (a.targets if isinstance(a, ast.Assign) else [a.target]))
+               for (key, a) in restored.get(field, []))
 
 
 def escape_context(fn, n):
